@@ -64,8 +64,8 @@ def hasPrefix : List Char → List Char → Bool
   | [], _ :: _ => false
   | a :: as, b :: bs => a = b && hasPrefix as bs
 
-/-- utils.CanonicalPath, branch by branch -/
-def canonicalPath (cfg : Cfg) (p0 : List Char) : List Char :=
+/-- utils.canonicalPath (one pass), branch by branch -/
+def canonicalOnce (cfg : Cfg) (p0 : List Char) : List Char :=
   let p := (trim cfg.isSpace p0).map cfg.lower          -- strings.ToLower(strings.TrimSpace(p))
   match p with
   | [] => ['/']                                          -- if p == "" { return "/" }
@@ -76,6 +76,17 @@ def canonicalPath (cfg : Cfg) (p0 : List Char) : List Char :=
       if p.length = np.length + 1 && hasPrefix p np then p   -- fast path
       else np ++ ['/']
     else np
+
+/-- the loop of utils.CanonicalPath: `for np != p { p, np = np, canonicalPath(np) }`.
+    The Go loop is unbounded; the fuel is a modelling device (every further pass shortens the
+    string, so `length + 2` passes are never used up — see `canonLoop_stable`). -/
+def canonLoop (cfg : Cfg) : Nat → List Char → List Char → List Char
+  | 0, _, np => np
+  | f + 1, p, np => if np = p then np else canonLoop cfg f np (canonicalOnce cfg np)
+
+/-- utils.CanonicalPath: `np := canonicalPath(p)`, then the loop -/
+def canonicalPath (cfg : Cfg) (p : List Char) : List Char :=
+  canonLoop cfg (p.length + 2) p (canonicalOnce cfg p)
 
 /-! ASCII instance -/
 def asciiSpace (c : Char) : Bool :=
